@@ -24,11 +24,12 @@ def main():
     shutil.rmtree(wt, ignore_errors=True)
     subprocess.run(["git", "-C", "/repo", "worktree", "add", "--detach", "-f", wt, "HEAD"], check=True, stdout=subprocess.DEVNULL, stderr=subprocess.DEVNULL)
     env = dict(os.environ, CARGO_TARGET_DIR="/scratch/seedtarget", CARGO_NET_OFFLINE="true")
+    feats = ["--features", os.environ["SEED_FEATURES"]] if os.environ.get("SEED_FEATURES") else []
     res = {}
     try:
         shutil.copy("/repo/Cargo.lock", os.path.join(wt, "Cargo.lock")) if os.path.exists("/repo/Cargo.lock") else None
         shutil.copy(os.path.join(d, "demo.rs"), os.path.join(wt, "tests", name + ".rs"))
-        rc, out = sh(["cargo", "test", "--offline", "--test", name], wt, env)
+        rc, out = sh(["cargo", "test", "--offline"] + feats + ["--test", name], wt, env)
         res["demo_on_head"] = "pass" if rc == 0 else "FAIL"
         if rc != 0:
             print(out[-2000:])
@@ -38,7 +39,7 @@ def main():
         if rc != 0:
             print("NOT-CONFIRMED: patch does not apply\n" + out)
             return 1
-        rc, out = sh(["cargo", "test", "--offline", "--test", name], wt, env)
+        rc, out = sh(["cargo", "test", "--offline"] + feats + ["--test", name], wt, env)
         res["demo_with_patch"] = "fail" if rc != 0 else "PASS"
         if rc == 0:
             print("NOT-CONFIRMED: demonstration still passes with the patch")
